@@ -83,7 +83,7 @@ class SessionCheck(Check):
             info = {k: v for k, v in info.items()}
             case['cmds'] = cmds
             case['extra_caps'] = [c for c in R.session._client_capabilities if c == 'urn:example:extra:1.0']
-            case['info'] = {k: info[k] for k in ('flavor', 'faults', 'closed', 'finished', 'want11', 'server_caps', 'n_req') if k in info}
+            case['info'] = {k: info[k] for k in ('flavor', 'faults', 'closed', 'finished', 'want11', 'server_caps', 'n_req', 'server_out_left', 'answered', 'bad_utf8', 'trap') if k in info}
             case['info']['server_texts'] = list(info.get('server_texts', []))
         alive_end = R.session.is_alive()
         R.finish_all()
@@ -101,7 +101,8 @@ class SessionCheck(Check):
             st['replies_delivered'] += sum(1 for x in R.obs[-1]['rpcs'] if ':R' in x)
             st['notifications_taken'] += len(R.obs[-1]['taken'])
         client_caps = list(R.session._client_capabilities)
-        return {'obs': R.obs, 'req_status': R.req_status, 'conn_result': R.conn_result, 'client_caps': client_caps, 'sync_outcomes': dict(R.sync_outcomes),
+        req_ids = [getattr(r, '_id', None) if r is not None else None for r in R.rpcs]
+        return {'obs': R.obs, 'req_status': R.req_status, 'conn_result': R.conn_result, 'client_caps': client_caps, 'sync_outcomes': dict(R.sync_outcomes), 'req_ids': req_ids,
                 'closed_by': list(R.ctl.closed_by), 'alive_end': alive_end}
 
     # ---- model ----------------------------------------------------------------------------------
@@ -158,7 +159,8 @@ class SessionCheck(Check):
         lo, hi = 1, len(cmds)
         while lo < hi:
             mid = (lo + hi) // 2
-            cand = dict(case, cmds=cmds[:mid])
+            # facts about the END of the full history (everything read, what was answered) do not hold for a prefix
+            cand = dict(case, cmds=cmds[:mid], info=dict(case.get('info') or {}, server_out_left=1, truncated=True))
             if still_fails(cand):
                 best, hi = cand, mid
             else:
